@@ -75,7 +75,14 @@ func oblProps(w *World, o *Obl) []string {
 	}
 	switch o.Kind {
 	case "panic":
-		return []string{"C11"}
+		// a panic inside a function under contract also breaks the properties that contract serves
+		ps := []string{"C11"}
+		if c := w.cs.Funcs[o.Fn]; c != nil {
+			for _, p := range contractProps(c) {
+				ps = appendUnique(ps, p)
+			}
+		}
+		return ps
 	case "call-pre":
 		if strings.HasPrefix(o.Label, "nonnil.") {
 			return []string{"C11"}
